@@ -20,6 +20,10 @@ pub struct GenCfg {
     pub p_ctx: u32,      // percent
     pub p_eoi_rule: u32, // percent of rules that get a `$` tail
     pub p_eoi_ctx: u32,  // percent of contexts that get a `$` tail / are `$`
+    /// percent of the `$` rules whose `$` is followed by something (nullable or not)
+    pub p_eoi_mid: u32,
+    /// percent of the `$` contexts in which `$` repeats, sits under a repetition or is followed by something
+    pub p_eoi_ctx_multi: u32,
     /// weights: Skip, Simple, Do, Try
     pub w_act: [u32; 4],
     pub p_switch: u32,
@@ -50,6 +54,8 @@ impl GenCfg {
             p_ctx: 0,
             p_eoi_rule: 0,
             p_eoi_ctx: 0,
+            p_eoi_mid: 0,
+            p_eoi_ctx_multi: 0,
             w_act: [1, 3, 6, 0],
             p_switch: 0,
             p_reset: 10,
@@ -66,9 +72,9 @@ impl GenCfg {
     }
 }
 
-pub const FAMILIES: [&str; 15] = [
+pub const FAMILIES: [&str; 16] = [
     "accum", "munch", "lang", "rulesets", "rctx", "eoi", "loc", "actions", "recover", "progress", "realistic",
-    "class", "prec", "bigclass", "mixed",
+    "class", "prec", "bigclass", "mixed", "eoimid",
 ];
 
 pub fn family_cfg(family: &str, rng: &mut Rng) -> GenCfg {
@@ -123,6 +129,21 @@ pub fn family_cfg(family: &str, rng: &mut Rng) -> GenCfg {
             c.p_eoi_rule = 35;
             c.p_ctx = 15;
             c.p_eoi_ctx = 40;
+            c.p_switch = 30;
+            c.p_unnamed = 30;
+            c.w_act = [1, 2, 8, 1];
+        }
+        "eoimid" => {
+            // `$` that is not the last factor of a rule, and contexts in which `$` repeats
+            c.letters = vec!['a', 'b'];
+            c.n_sets = (1, 3);
+            c.rules = (1, 4);
+            c.depth = 2;
+            c.p_eoi_rule = 45;
+            c.p_eoi_mid = 75;
+            c.p_ctx = 30;
+            c.p_eoi_ctx = 50;
+            c.p_eoi_ctx_multi = 70;
             c.p_switch = 30;
             c.p_unnamed = 30;
             c.w_act = [1, 2, 8, 1];
@@ -350,6 +371,22 @@ impl<'a> Gen<'a> {
 
     pub fn gen_ctx(&mut self) -> Re {
         if self.rng.chance(self.cfg.p_eoi_ctx, 100) {
+            if self.rng.chance(self.cfg.p_eoi_ctx_multi, 100) {
+                let x = self.gen_nonnull(1);
+                let y = self.gen_nonnull(1);
+                let z = self.gen_atom();
+                return match self.rng.below(9) {
+                    0 => Re::cat(Re::Eoi, Re::Eoi),
+                    1 => Re::cat(Re::alt(x, Re::Eoi), Re::cat(Re::star(z), Re::alt(y, Re::Eoi))),
+                    2 => Re::plus(Re::Eoi),
+                    3 => Re::cat(Re::plus(Re::alt(x, Re::Eoi)), y),
+                    4 => Re::cat(Re::plus(Re::cat(Re::Eoi, Re::opt(x))), y),
+                    5 => Re::cat(Re::Eoi, y),
+                    6 => Re::cat(Re::star(Re::alt(x, Re::Eoi)), Re::Eoi),
+                    7 => Re::cat(Re::opt(Re::Eoi), Re::cat(Re::opt(Re::Eoi), x)),
+                    _ => Re::cat(Re::plus(Re::cat(Re::Eoi, Re::Eoi)), Re::opt(y)),
+                };
+            }
             return match self.rng.below(3) {
                 0 => Re::Eoi,
                 1 => Re::cat(self.gen_nonnull(1), Re::Eoi),
@@ -421,7 +458,19 @@ impl<'a> Gen<'a> {
         let d = self.cfg.depth;
         let depth = self.rng.range(d.saturating_sub(2).max(0), d);
         let mut re = self.gen_nonnull(depth);
-        if self.rng.chance(self.cfg.p_eoi_rule, 100) {
+        if self.rng.chance(self.cfg.p_eoi_rule, 100) && self.rng.chance(self.cfg.p_eoi_mid, 100) {
+            let x = self.gen_nonnull(1);
+            let y = self.gen_atom();
+            re = match self.rng.below(7) {
+                0 => Re::cat(re, Re::cat(Re::Eoi, Re::opt(y))),
+                1 => Re::cat(re, Re::cat(Re::alt(Re::Eoi, x), Re::star(y))),
+                2 => Re::cat(re, Re::cat(Re::Eoi, y)),
+                3 => Re::cat(re, Re::cat(Re::alt(Re::Eoi, x), y)),
+                4 => Re::cat(Re::opt(Re::cat(re, Re::Eoi)), x),
+                5 => Re::cat(Re::alt(Re::Eoi, x), Re::opt(y)),
+                _ => Re::cat(re, Re::cat(Re::opt(Re::Eoi), Re::opt(y))),
+            };
+        } else if self.rng.chance(self.cfg.p_eoi_rule, 100) {
             re = match self.rng.below(4) {
                 0 => Re::Eoi,
                 1 => Re::cat(re, Re::Eoi),
@@ -725,6 +774,20 @@ fn gen_recover_spec(g: &mut Gen) -> Spec {
             )]),
         };
         spec.sets[0].entries.insert(0, Entry::Rule(sw));
+        // half of the definitions give Init a `$` rule: what follows a failure on the very last
+        // character is then observable (Init must still see the end of the input)
+        if g.rng.chance(1, 2) {
+            let at = g.rng.range(0, spec.sets[0].entries.len());
+            spec.sets[0].entries.insert(
+                at,
+                Entry::Rule(Rule {
+                    id: 0,
+                    re: Re::Eoi,
+                    ctx: None,
+                    act: Action::Do(vec![(Guard::Always, Outcome::ret(5))]),
+                }),
+            );
+        }
         for s in spec.sets.iter_mut() {
             if g.rng.chance(2, 3) {
                 s.entries.push(Entry::Rule(Rule {
